@@ -107,6 +107,8 @@ func siteFor(kind, lpc string) string {
 		switch lpc {
 		case "tmp":
 			return "repo.load.tmp"
+		case "fetching":
+			return "origin.midbody"
 		case "fetched":
 			return "repo.load.fetched"
 		case "parsed":
@@ -120,6 +122,8 @@ func siteFor(kind, lpc string) string {
 			return "repo.refresh.tmp"
 		case "info":
 			return "repo.refresh.info"
+		case "fetching":
+			return "origin.midbody"
 		case "fetched":
 			return "repo.refresh.fetched"
 		case "staged":
@@ -422,6 +426,12 @@ func (rr *repoRun) observe(stop *repoStop, from, to *repoState, opName string) {
 		}
 	}
 	// ---- crash image at this point (C12) ----
+	if rr.prop == "C12" && quiescent {
+		// what a process at rest keeps in work_dir besides stores (nothing at present) is not a leftover of an interrupted run
+		for _, n := range rw.w.Listing().Other {
+			restingNames.Store(n, true)
+		}
+	}
 	if rr.prop == "C12" && rr.disk && parked && rr.imgDir != "" {
 		dir := filepath.Join(rr.imgDir, fmt.Sprintf("img-%d", len(rr.images)+1))
 		if err := rw.snapshot(dir); err == nil {
@@ -605,6 +615,9 @@ func C12(c *vk.Ctx) {
 	c.Assume("SIGKILL of the process, not power loss: a copy of a live LevelDB directory contains every completed write (no fsync modelling)")
 }
 
+// restingNames: names (other than stores and known temporaries) seen in work_dir while no run was in progress
+var restingNames sync.Map
+
 // c12Restart provisions a fresh validator on a crash image and checks what it treats as loaded.
 func c12Restart(c *vk.Ctx, parent *repoWorld, im crashImage) {
 	rw, err := newRepoWorldOnImage(parent, im.Dir)
@@ -614,8 +627,20 @@ func c12Restart(c *vk.Ctx, parent *repoWorld, im crashImage) {
 	defer rw.w.Destroy()
 	c.Eval(fmt.Sprintf("image|%s|%s|%s|%s|%v", im.Kind, im.Lpc, im.Prev, im.New, im.NewAcc))
 	rep := map[string]any{"crash_at": im.Lpc, "site": im.Site, "kind": im.Kind, "previous_list": im.Prev, "new_list": im.New, "new_acceptable": im.NewAcc, "steps": im.Hist}
-	if l := rw.w.Listing(); len(l.Temps) > 0 {
+	l := rw.w.Listing()
+	if len(l.Temps) > 0 {
 		c.Violation("temporary-artefacts-survive-startup:crash-at="+im.Lpc, fmt.Sprintf("after Provision on the crash image work_dir still contains %v", l.Temps), rep)
+	}
+	// whatever else the dead process had created for the interrupted run (the harness puts nothing into these directories) and
+	// that a process at rest never keeps: a leftover under any name
+	var left []string
+	for _, n := range l.Other {
+		if _, ok := restingNames.Load(n); !ok {
+			left = append(left, n)
+		}
+	}
+	if len(left) > 0 {
+		c.Violation("leftover-of-interrupted-run-survives-startup:crash-at="+im.Lpc, fmt.Sprintf("after Provision on the crash image work_dir still contains %v, which no run at rest ever had there", left), rep)
 	}
 	// the origin serves garbage: nothing can be (re)loaded, strict is on: "not loaded" shows as an error
 	res := map[string]probeResult{}
